@@ -115,7 +115,12 @@ def cell_len_for_total(total):
         n = total - h
         if n >= 0 and lenenc_hdr_len(n) == h:
             return n
-    return None
+    # no length class fits exactly (total just above a class boundary): the largest cell that still fits
+    for h in (4, 3, 1):
+        n = {4: (1 << 24) - 1, 3: 65535, 1: 250}[h]
+        if n + h <= total:
+            return n
+    return 0
 
 
 class BigConv(Conv):
